@@ -254,6 +254,19 @@ def check_commitment(control: bytes, program: bytes, leaf_hash: bytes) -> bool:
 
 def answer(line: str, query: str, vec=None) -> str:
     t = line.split(" ")
+    if t[0] in ("eval", "evalx", "execwit", "execwitx"):
+        # EvalScript / ExecuteWitnessScript level: the transaction impl_eval builds (amount 0, prevout script 51, no annex);
+        # in tapscript the leaf is the script under evaluation
+        _op, _sv, _flags, script, _stack, lt, seq, ver, _w, _o = t
+        tx, prevouts = mk_tx(b"", [], int(lt), int(seq), int(ver), 0, b"\x51")
+        q = query.split(":")
+        if q[0] == "e":
+            v = "1" if check_ecdsa(unhx(q[1]), unhx(q[2]), unhx(q[3]), q[4], tx, 0, 0) else "0"
+        elif q[0] == "s":
+            v = check_schnorr(unhx(q[1]), unhx(q[2]), q[3], int(q[4]), tx, prevouts, b"", unhx(script), 0)
+        else:
+            raise common.HarnessError("unknown oracle query " + query[:80])
+        return line + ";" + query + "=" + v
     _op, _flags, ss, spk, wit, lt, seq, ver, amount, _o = t
     witness = unhexlist(wit)
     tx, prevouts = mk_tx(unhx(ss), witness, int(lt), int(seq), int(ver), int(amount), unhx(spk))
@@ -488,6 +501,16 @@ def _impl(t) -> str:
     return (impl_eval if t[0] in ("eval", "execwit") else impl_verify)(t)
 
 
+def _der_strict_encode(r: int, s: int) -> bytes:
+    def enc(v):
+        b = v.to_bytes((v.bit_length() + 7) // 8 or 1, "big")
+        if b[0] & 0x80:
+            b = b"\x00" + b
+        return b"\x02" + bytes([len(b)]) + b
+    body = enc(r) + enc(s)
+    return b"\x30" + bytes([len(body)]) + body
+
+
 def _strict_der(sig: bytes) -> bool:
     """IsValidSignatureEncoding"""
     n = len(sig)
@@ -566,9 +589,29 @@ def classify_named(ln, io, mo):
     if core == "OK" and not accepted and strict and ("valid x-coordinate" in msg or "not in 1..n-1" in msg) \
             and any(_strict_der(e) for e in els) and agree_without({"DERSIG", "LOW_S", "STRICTENC"}):
         return "dersig_structurally_valid_sig_refused"
-    if core == "OK" and not accepted and not strict \
+    # at EvalScript level the refused signature shows as a different final stack (false pushed where Core pushes true)
+    if core == "OK" and io != mo and not strict \
             and any(len(e) > 8 and e[0] == 0x30 and not _strict_der(e) and der_lax(e[:-1]) is not None for e in els):
         return "lax_der_signature_refused"
+    # the same class seen through a negation (`<sig> <key> CHECKSIG NOT`: Core's check succeeds, so Core says EVAL_FALSE
+    # where btclib, whose check failed, accepts) or any other use of the check's answer: named only when spelling every
+    # lax signature on the stack strictly (same r, s and hash type) makes engine and transcription agree again
+    if io != mo and not strict and t[0] in ("eval", "execwit"):
+        stack = unhexlist(t[4])
+        respelt, n_lax = [], 0
+        for e in stack:
+            rs = der_lax(e[:-1]) if len(e) > 8 and e[0] == 0x30 and not _strict_der(e) else None
+            if rs is not None and rs[0] > 0 and rs[1] > 0:
+                respelt.append(_der_strict_encode(*rs) + e[-1:])
+                n_lax += 1
+            else:
+                respelt.append(e)
+        if n_lax:
+            t2 = list(t)
+            t2[4] = hexlist(respelt)
+            t2[-1] = t2[-1].split(";")[0]
+            if _impl(t2) == resolve_model(" ".join(t2)):
+                return "lax_der_signature_refused"
     if core == "SIG_HASHTYPE" and accepted and "STRICTENC" in flags \
             and any(_strict_der(e) and e[-1] & 0x7F == 0 for e in els) and agree_without({"STRICTENC"}):
         return "strictenc_hashtype_zero_accepted"
@@ -623,6 +666,65 @@ CORPUS_EVAL = [
 ]
 
 
+def signed_eval_lines(rng, n):
+    """EvalScript-level programs whose CHECKSIG / CHECKMULTISIG / CHECKSIGADD success paths are real: signatures made by
+    btclib's signing primitives over the transaction impl_eval builds, handed in on the initial stack; oracle `ask`"""
+    from . import c08_forms as F
+    lines, wit = [], []
+    for _ in range(n):
+        lt, seq, ver = rng.choice([(0, 0xFFFFFFFF, 1), (0, 0xFFFFFFFE, 2), (10, 5, 2)])
+        sp = F.Spend(rng, lt, seq, ver, 0)
+        sp.spk = b"\x51"
+        fl = rng.choice(["-", "-", "NULLFAIL", "DERSIG", "DERSIG,NULLDUMMY,NULLFAIL", "LOW_S", "MINIMALDATA",
+                         "STRICTENC", "WITNESS_PUBKEYTYPE", "CONST_SCRIPTCODE", "DERSIG,LOW_S,STRICTENC,NULLFAIL,NULLDUMMY"])
+        kind = rng.choice(["pk", "pk", "pkh", "ms", "ms", "pkv", "codesep", "notsig", "tap", "tap", "tapadd"])
+        if kind in ("tap", "tapadd"):
+            k1, k2 = F.KEYS[0], F.KEYS[1]
+            if kind == "tap":
+                leaf = rng.choice([G.push(F.xonly(k1)) + b"\xac", G.push(F.xonly(k1)) + b"\xad\x51",
+                                   b"\x51\x75\xab" + G.push(F.xonly(k1)) + b"\xac"])
+                pos = 2 if leaf[:1] == b"\x51" and leaf[2:3] == b"\xab" else 0xFFFFFFFF
+                ext = F.tap_leaf(leaf) + b"\x00" + pos.to_bytes(4, "little")
+                st = [sp.schnorr(k1, 1, b"", ext, rng.choice(F.SCHNORR_MUTS))]
+            else:
+                leaf = G.push(F.xonly(k1)) + b"\xac" + G.push(F.xonly(k2)) + b"\xba" + rng.choice([b"\x52", b"\x51"]) + b"\x87"
+                ext = F.tap_leaf(leaf) + b"\x00" + (0xFFFFFFFF).to_bytes(4, "little")
+                st = [sp.schnorr(k2, 1, b"", ext, rng.choice(F.SCHNORR_MUTS)), sp.schnorr(k1, 1, b"", ext, rng.choice(F.SCHNORR_MUTS))]
+            tfl = rng.choice(["-", "DISCOURAGE_UPGRADABLE_PUBKEYTYPE", "MINIMALDATA", "NULLFAIL"])
+            wit.append(f"execwit tapscript {tfl} {hx(leaf)} {hexlist(st)} {lt} {seq} {ver} {rng.choice([49, 50, 99, 100, 1000])} ask")
+            continue
+        segwit = rng.random() < 0.4
+        sv = "v0" if segwit else "base"
+        q = F.KEYS[0]
+        mut = rng.choice(F.SIG_MUTS)
+        if kind == "pk":
+            sc = F.p2pk(q, rng.random() < 0.8)
+            st = [sp.ecdsa(q, sc, segwit, mut)]
+        elif kind == "pkv":
+            sc = G.push(F.pub(q)) + b"\xad\x51"
+            st = [sp.ecdsa(q, sc, segwit, mut)]
+        elif kind == "notsig":
+            sc = G.push(F.pub(q)) + b"\xac\x91"
+            st = [sp.ecdsa(q, sc, segwit, mut)]
+        elif kind == "pkh":
+            sc = F.p2pkh(q)
+            st = [sp.ecdsa(q, sc, segwit, mut), F.pub(q)]
+        elif kind == "codesep":
+            tail = F.p2pk(q)
+            sc = b"\x51\x75\xab" + tail
+            st = [sp.ecdsa(q, sc if segwit and rng.random() < 0.3 else tail, segwit, mut)]
+        else:
+            qs = F.KEYS[:3]
+            sc = F.multisig(2, qs)
+            order = rng.choice([(0, 1), (0, 2), (1, 2), (1, 0)])
+            muts = ["valid", mut] if rng.random() < 0.6 else [rng.choice(F.SIG_MUTS), mut]
+            st = [b"" if rng.random() < 0.85 else b"\x01"] + [sp.ecdsa(qs[i], sc, segwit, m) for i, m in zip(order, muts)]
+        lines.append(f"eval {sv} {fl} {hx(sc)} {hexlist(st)} {lt} {seq} {ver} 0 ask")
+        if segwit and rng.random() < 0.5:
+            wit.append(f"execwit v0 {fl} {hx(sc)} {hexlist(st)} {lt} {seq} {ver} 0 ask")
+    return lines, wit
+
+
 def run_eval(ctx, spec):
     rng = ctx.rng
     lines = []
@@ -670,8 +772,13 @@ def run_eval(ctx, spec):
         fl = rng.choice(fsets)
         w = rng.choice([0, 49, 50, 99, 100, 1000, 100000])
         wit_lines.append(f"execwit tapscript {fl} {hx(sc)} {hexlist(st)} 0 4294967295 1 {w} deny")
-    spec(ctx, "core.eval", lines, classify_eval, nontrivial=lambda ln, io: len(ln.split(" ")[3]) <= 20000)
-    spec(ctx, "core.execwit", wit_lines, classify_eval)
+    sl, sw = signed_eval_lines(rng, ctx.n(300, 6000))
+    ctx.count("core.eval.oracle", "deny", len(lines))
+    ctx.count("core.eval.oracle", "ask (real signatures)", len(sl))
+    ctx.count("core.execwit.oracle", "deny", len(wit_lines))
+    ctx.count("core.execwit.oracle", "ask (real signatures)", len(sw))
+    spec(ctx, "core.eval", lines + sl, classify_eval, nontrivial=lambda ln, io: len(ln.split(" ")[3]) <= 20000)
+    spec(ctx, "core.execwit", wit_lines + sw, classify_eval)
 
 
 def run_bt(ctx, bt_stream):
